@@ -24,7 +24,7 @@ META = {
     "assumptions": ["finite floats as reals"],
 }
 
-MODES = [None, "serial", "thread", "process", "parallel", ""]
+MODES = [None, "serial", "thread", "process", "parallel", "", ModeSolver.THREAD, "SERIAL"]
 
 
 def ob_entry(has_config):
@@ -36,7 +36,8 @@ def ob_entry(has_config):
             cfg = M.BaseOptimizationConfig(population_size=2, fitness_error=None, max_cycles=1) if has_config else None
             t = make_task([cont()], lambda x, i: float(i))
             opt = Scripted(cfg)
-            valid = has_config and (workers is None or workers > 0) and mode in (None, "serial", "thread", "process")
+            valid = has_config and (workers is None or workers > 0) and \
+                (mode is None or mode is ModeSolver.THREAD or mode in ("serial", "thread", "process"))
             try:
                 res = opt.optimize(t, mode=mode, workers=workers)
             except ValueError:
